@@ -286,6 +286,68 @@ def handleGET (cfg : KSConfig) (loc apiToken : Str) (nowNs : Int) : GetOutcome :
       | none => .readVolume h
     else .readVolume h
 
+/-! ## keepstore: what comes before `handleGET` (token extraction, URL path handling) -/
+
+/-- `GetAPIToken`: group 2 of `authRe = ^(OAuth2|Bearer)\s+(.*)` on the first Authorization
+header value, "" when the header is absent or does not match. `\s+` is greedy over
+`[\t\n\f\r ]`, `.` stops at the first newline. -/
+def getAPIToken : Option Str → Str
+  | none => []
+  | some v =>
+    if ['O', 'A', 'u', 't', 'h', '2'].isPrefixOf v || ['B', 'e', 'a', 'r', 'e', 'r'].isPrefixOf v then
+      match v.drop 6 with
+      | c :: r => if isSpace c then ((c :: r).dropWhile isSpace).takeWhile (· ≠ '\n') else []
+      | [] => []
+    else []
+
+/-- net/url's unescape for a path: `%XX` → byte, any other `%` is an error; `+` stays `+`. -/
+def pctDecode : Str → Option Str
+  | [] => some []
+  | '%' :: a :: b :: rest =>
+    match hexVal? a, hexVal? b, pctDecode rest with
+    | some x, some y, some r => some (Char.ofNat (x * 16 + y) :: r)
+    | _, _, _ => none
+  | '%' :: _ => none
+  | c :: rest => (pctDecode rest).map (c :: ·)
+
+/-- element stack of `path.Clean` on a rooted path: empty and `.` elements vanish, `..` removes
+the element before it (nothing at the root) -/
+def cleanSegs : List Str → List Str → List Str
+  | st, [] => st.reverse
+  | st, s :: r =>
+    if s.isEmpty || s == ['.'] then cleanSegs st r
+    else if s == ['.', '.'] then cleanSegs (st.drop 1) r
+    else cleanSegs (s :: st) r
+
+def joinSlash : List Str → Str
+  | [] => []
+  | [s] => s
+  | s :: r => s ++ '/' :: joinSlash r
+
+/-- gorilla/mux `cleanPath` (path.Clean, trailing slash kept) -/
+def cleanPath (p : Str) : Str :=
+  match p with
+  | [] => ['/']
+  | c :: r =>
+    let p' := if c = '/' then c :: r else '/' :: c :: r
+    let np := '/' :: joinSlash (cleanSegs [] (splitOn '/' (p'.drop 1)))
+    if p'.getLast? == some '/' && np != ['/'] then np ++ ['/'] else np
+
+inductive ServeOutcome where
+  | redirect (path : Str)        -- 301 to the cleaned path (mux, before any route is tried)
+  | handled (o : GetOutcome)
+deriving Repr, DecidableEq
+
+/-- A GET request as the router sees it: `path` is `req.URL.Path` (already percent-decoded by
+net/http), `hdr` the first Authorization header value. Paths that are not in canonical form are
+redirected; otherwise the routes are tried on the path without its leading slash (paths that are
+not `/`+32 hex… never reach `handleGET`; the other GET routes of keepstore — /index, /status.json,
+/debug.json, /mounts…, /_health/… — are outside this model and the generator never requests
+them). -/
+def serveGET (cfg : KSConfig) (path : Str) (hdr : Option Str) (nowNs : Int) : ServeOutcome :=
+  if cleanPath path != path then .redirect (cleanPath path)
+  else .handled (handleGET mac cfg (path.drop 1) (getAPIToken hdr) nowNs)
+
 /-- decimal (`%d`) of a size -/
 def natDec (n : Nat) : Str := Nat.toDigits 10 n
 
@@ -309,13 +371,17 @@ def message (blobHash apiToken timestampHex ttlHex : Str) : Str :=
 def generateSignature (key blobHash apiToken timestampHex ttlHex : Str) : Str :=
   hexOfDigest (mac key (message blobHash apiToken timestampHex ttlHex))
 
-/-- `Blob.sign_locator` with `:expire` given: `timestamp.to_s(16)` is not zero-padded;
-`BlobSigningTTL.to_i.to_s(16)`; the hash is `blob_locator.split('+').first`. -/
-def signLocator (loc apiToken : Str) (expire : Nat) (ttlSecs : Nat) (key : Str) : Str :=
+/-- `Blob.sign_locator` from the point where `timestamp_hex` is known:
+`blob_locator + '+A' + signature + '@' + timestamp_hex`, the hash being
+`blob_locator.split('+').first` and the TTL `BlobSigningTTL.to_i.to_s(16)`. -/
+def signLocatorTs (loc apiToken timestampHex : Str) (ttlSecs : Nat) (key : Str) : Str :=
   let blobHash := loc.takeWhile (· ≠ '+')
-  let timestampHex := natHex expire
   loc ++ ['+', 'A'] ++ generateSignature mac key blobHash apiToken timestampHex (natHex ttlSecs)
     ++ ['@'] ++ timestampHex
+
+/-- `Blob.sign_locator` with `:expire` given: `timestamp.to_s(16)` is not zero-padded. -/
+def signLocator (loc apiToken : Str) (expire : Nat) (ttlSecs : Nat) (key : Str) : Str :=
+  signLocatorTs mac loc apiToken (natHex expire) ttlSecs key
 
 end Ref
 
